@@ -108,6 +108,68 @@ def inst_coq(elem):
     return '(Elem %d [%s])' % (NAMES.index(elem.tag) if elem.tag in NAMES else 9, '; '.join(inst_coq(c) for c in elem))
 
 
+TYPED_XSD = """<xs:schema xmlns:xs="http://www.w3.org/2001/XMLSchema">
+<xs:simpleType name="ints"><xs:list itemType="xs:int"/></xs:simpleType>
+<xs:simpleType name="iu"><xs:union memberTypes="xs:int xs:date xs:string"/></xs:simpleType>
+<xs:simpleType name="small"><xs:restriction base="xs:int"><xs:maxInclusive value="10"/></xs:restriction></xs:simpleType>
+<xs:complexType name="price"><xs:simpleContent><xs:extension base="xs:decimal"><xs:attribute name="cur" type="xs:NMTOKEN"/></xs:extension></xs:simpleContent></xs:complexType>
+<xs:element name="r"><xs:complexType><xs:sequence>
+ <xs:element name="i" type="xs:int"/><xs:element name="l" type="ints"/><xs:element name="u" type="iu" maxOccurs="3"/>
+ <xs:element name="s" type="small"/><xs:element name="p" type="price"/><xs:element name="d" type="xs:date"/>
+ <xs:element name="b" type="xs:boolean"/><xs:element name="f" type="xs:double"/><xs:element name="q" type="xs:QName"/>
+ <xs:element name="n" type="xs:int" nillable="true"/>
+ <xs:element name="e"><xs:complexType><xs:sequence><xs:element name="k" type="xs:int"/></xs:sequence></xs:complexType></xs:element>
+ <xs:element name="t" type="xs:token"/>
+</xs:sequence><xs:attribute name="a" type="xs:int"/><xs:attribute name="al" type="ints"/></xs:complexType></xs:element>
+</xs:schema>"""
+TYPED_XML = ('<r a=" 7 " al="1 2 3" xmlns:xsi="http://www.w3.org/2001/XMLSchema-instance" xmlns:p="urn:p"><i> 42 </i><l>1 2  3</l><u>5</u><u>2000-01-01</u>'
+             '<u>x y</u><s>7</s><p cur="EUR">1.50</p><d>2000-01-01Z</d><b>1</b><f>1e2</f><q>p:name</q><n xsi:nil="true"/><e><k>3</k></e><t>  a   b </t></r>')
+# expression -> expected value rendered as (type name, string) items; the typed values are what the schema processor decodes
+TYPED_CASES = [
+    ("data(i)", [('Int', '42')]), ("i + 1", [('int', '43')]), ("i eq 42", [('bool', 'True')]), ("i lt 100", [('bool', 'True')]),
+    ("count(data(l))", [('int', '3')]), ("sum(l)", [('int', '6')]), ("sum(@al)", [('int', '6')]), ("max(l)", [('Int', '3')]), ("avg(l)", [('int', '2')]),
+    ("sum((i, s))", [('int', '49')]), ("l = 2", [('bool', 'True')]), ("@a + 1", [('int', '8')]),
+    ("xs:string(i)", [('str', '42')]), ("i cast as xs:string", [('str', '42')]), ("string(i)", [('str', ' 42 ')]),
+    ("xs:string(b)", [('str', 'true')]), ("b cast as xs:string", [('str', 'true')]), ("xs:string(f)", [('str', '100')]),
+    ("xs:string(t)", [('str', 'a b')]), ("string-length(t)", [('int', '3')]), ("xs:string(p)", [('str', '1.5')]),
+    ("i castable as xs:date", [('bool', 'False')]), ("i castable as xs:string", [('bool', 'True')]), ("(i treat as element()) is i", [('bool', 'True')]),
+    ("data(n)", []), ("empty(data(n))", [('bool', 'True')]), ("nilled(n)", [('bool', 'True')]), ("n castable as xs:int", [('bool', 'False')]),
+    ("abs(i)", [('int', '42')]), ("round(p)", [('Decimal', '2')]), ("floor(p)", [('Decimal', '1')]), ("p * 2", [('Decimal', '3.00')]),
+    ("data(u[2]) instance of xs:date", [('bool', 'True')]), ("data(u[3]) instance of xs:string", [('bool', 'True')]), ("u[1] + 1", [('int', '6')]),
+    ("xs:string(u[2])", [("str", "2000-01-01")]), ("u[2] cast as xs:string", [("str", "2000-01-01")]), ("xs:integer(/r/u[1])", [("Integer", "5")]), ("/r/u[1] cast as xs:integer", [("Integer", "5")]),
+    ("d + xs:dayTimeDuration('P1D')", [('Date10', '2000-01-02Z')]), ("namespace-uri-from-QName(data(q))", [('AnyURI', 'urn:p')]),
+    ("b and true()", [('bool', 'True')]), ("b eq true()", [('bool', 'True')]), ("f div 4", [('float', '25.0')]), ("e/k + 1", [('int', '4')]),
+    ("distinct-values((i, s, @a))", [('Int', '42'), ('Int', '7')]), ("data(p/@cur) instance of xs:NMTOKEN", [('bool', 'True')]),
+]
+
+
+def typed_scenario(chk):
+    """fixed scenario: typed values of list / union / restricted / simple-content / nillable declarations through data(), arithmetic,
+    the aggregate functions, cast as / constructor functions and the function conversion rules"""
+    import xmlschema
+    import xml.etree.ElementTree as ET
+    from elementpath import select, ElementPathError
+    from elementpath.xpath31 import XPath31Parser
+    schema = xmlschema.XMLSchema10(TYPED_XSD)
+    root = ET.XML(TYPED_XML)
+    valid = schema.is_valid(TYPED_XML)
+    chk.obligations.append({'name': 'typed scenario: the instance is valid against its schema', 'ok': valid, 'detail': ''})
+    if not valid:
+        return
+    for expr, want in TYPED_CASES:
+        chk.evaluations += 1
+        chk.count('typed-scenario')
+        try:
+            r = select(root, expr, schema=schema.xpath_proxy, parser=XPath31Parser, namespaces={'p': 'urn:p'})
+            r = r if isinstance(r, list) else [r]
+            got = [(type(x).__name__, str(x)) for x in r]
+        except ElementPathError as ex:
+            got = 'error ' + str(ex)[:160]
+        if got != want:
+            chk.violation('impl-vs-spec', {'scenario': 'typed values', 'expr': expr}, {'impl': repr(got)[:300], 'expected (typed value semantics)': repr(want)})
+        chk.nontrivial.add('typed-scenario:' + expr)
+
+
 def run(chk):
     import xml.etree.ElementTree as ET
     import xmlschema
@@ -257,6 +319,25 @@ def run(chk):
                         r, r2 = 'error ' + str(ex.code), None
                     if r != want + 1 or r2 is not True:
                         chk.violation('impl-vs-spec', desc, {'node + 1': repr(r), 'node = value': r2, 'typed value': repr(want)})
+                # the typed value is what cast as, the constructor functions and the function conversion rules see:
+                # xs:string(node) = node cast as xs:string = string(data(node)); abs / round use the typed number
+                if not isinstance(tv, list):
+                    try:
+                        r3 = select(root, f'(xs:string({p}), {p} cast as xs:string, string(data({p})), {p} castable as xs:string, ({p} treat as {kind}()) is {p})',
+                                    schema=schema.xpath_proxy, parser=XPath31Parser)
+                    except ElementPathError as ex:
+                        r3 = 'error ' + str(ex)[:120]
+                    if not (isinstance(r3, list) and len(r3) == 5 and r3[0] == r3[1] == r3[2] and r3[3] is True and r3[4] is True):
+                        chk.violation('impl-vs-spec', desc, {'(xs:string(n), n cast as xs:string, string(data(n)), n castable as xs:string, (n treat as kind()) is n)': repr(r3)[:300]})
+                    if isinstance(want, (int, Decimal)) and not isinstance(want, bool):
+                        try:
+                            r4 = select(root, f'(abs({p}), round({p}), floor({p}))', schema=schema.xpath_proxy, parser=XPath31Parser)
+                        except ElementPathError as ex:
+                            r4 = 'error ' + str(ex)[:120]
+                        import math as _m
+                        w4 = [abs(want), (want if isinstance(want, int) else Decimal(_m.floor(want + Decimal('0.5')))), (want if isinstance(want, int) else Decimal(_m.floor(want)))]
+                        if not (isinstance(r4, list) and r4 == w4 and [type(x) is float for x in r4] == [False] * 3):
+                            chk.violation('impl-vs-spec', desc, {'(abs(n), round(n), floor(n))': repr(r4)[:200], 'on the typed value': repr(w4)})
                 chk.nontrivial.add(repr((xsd, p)))
         # selection is the same with and without the schema (element root and document root)
         has_default = 'default=' in xsd
@@ -320,6 +401,7 @@ def run(chk):
                     chk.violation('impl-vs-spec', desc, {'typed value': repr(tv), 'expected': repr(want), f'instance of {kind}(*, {tname})': yes,
                                                          f'instance of {kind}(*, {not_t})': no})
                 chk.nontrivial.add(xsd + path + ver)
+    typed_scenario(chk)
     chk.rule = ('seeded random schemas (depth <= 3; anonymous and named complex types re-declaring child names a b v w x with different types; '
                 'attributes with and without defaults; built-in atomic types, a restriction, a list, a union) with a valid instance each, XSD 1.0 '
                 'and 1.1, + the fixed two-anonymous-types scenario; per element the assigned type; per simple-typed element / attribute the typed '
